@@ -2,9 +2,9 @@ import TPV.Model.Proto
 import TPV.Model.UserFun
 open TPV TPV.Proto TPV.UserFun
 
-/-! line protocol of C13:  `run <nops> <op>…` / `runold <nops> <op>…`  →  `<out> # <digest> ; …`
+/-! line protocol of C13:  `run <nops> <op>…` / `runcopy <nops> <op>…` / `runold <nops> <op>…`  →  `<out> # <digest> ; …`
     ops: nd <dict> | wf fn <names> <dflts> | wd fn <names> <dflts> <names of __wrapped__> <dflts of __wrapped__> |
-         wk fn <names> <dflts> <kw-only names> <kw-only defaults dict> | wc fn | we fn <names> <udict|-1> | rw r | ca r <dict> | cm r <dict> <fallback|-1> <inserts> | cv r <dict> <lens> |
+         wk fn <names> <dflts> <kw-only names> <kw-only defaults dict> | wc fn | we fn <names> <udict|-1> | rw r | sc r | ca r <dict> | cm r <dict> <fallback|-1> <inserts> | cv r <dict> <lens> |
          pe r <dict> | sd r <dict> | rd r <names> | dc r        (lists are length-prefixed)
     `align <names> <dflts>`, `call <names> <defaults-dict> <env-dict>` evaluate single definitions. -/
 
@@ -36,6 +36,7 @@ def pOp (ud : List Nat) : P (Option Op × Option Callable × Option Mapping) := 
       | some cell => pure (some (.wrapExplicit fn ns (some cell)), some { fn := fn, names := ns, dflts := [], wrapped := none }, none)
       | none => pure (none, none, none)
   | "rw" => do let r ← nat; pure (some (.rewrap r), none, none)
+  | "sc" => do let r ← nat; pure (some (.shallowCopy r), none, none)
   | "ca" => do let r ← nat; let e ← pDict; pure (some (.call r e), none, none)
   | "cv" => do
     let r ← nat; let e ← pDict
@@ -162,6 +163,11 @@ def step1 (line : String) : String :=
     | "run" => do
       let n ← nat
       let ls ← runOps step n Heap.empty [] [] []
+      return " ; ".intercalate ls
+    | "runcopy" => do
+      -- the constructor policy that copies its containers (TPV.UserFun.stepCopy)
+      let n ← nat
+      let ls ← runOps stepCopy n Heap.empty [] [] []
       return " ; ".intercalate ls
     | "runold" => do
       let n ← nat
